@@ -93,6 +93,55 @@ def scale_case(run, rnd, date, n_b):
                                                     "self_supporting_children_in_B": int(b["eigenbedarf_gedeckt"].sum())})
 
 
+def relabel_beyond_valid(run, rnd, date, n_pops):
+    """Relabelling invariance does not rest on the validity assumptions about family structures: ids are only names.
+    Tables in which several persons compete for one family unit (a child under 25 living with the parents AND an own
+    partner; co-resident parents who are not a couple) are relabelled order-reversingly and at random, rows unchanged."""
+    for k in range(n_pops):
+        p = popgen.Pop(rnd, date)
+        p.cluster(rnd.choice(["child_with_partner", "coparents_not_partners"]))
+        if rnd.random() < 0.6:
+            p.cluster()
+        a = p.frame(relabel=False, shuffle=rnd.random() < 0.5)
+        ok, ra = run.attempt(f"simulate(competing family) at {date}", popgen.simulate_all, a, date,
+                             replay={"date": date, "data": popgen.frame_to_json(a)})
+        if not ok:
+            run.broken.pop()        # such tables may legitimately be rejected; then there is nothing to compare
+            continue
+        base = meta.by_pid(ra, a)
+        pids = sorted(a["p_id"].unique())
+        hids = sorted(a["hh_id"].unique())
+        top = 7 * (max(pids) + 3)
+        maps = [("order-reversing", {q: top - 7 * q for q in pids}, {h: 5 * (max(hids) + 2) - 5 * h for h in hids})]
+        a_rand, pm = relabelled(rnd, a)
+        for label, pmap, hmap in maps + [("random", pm, None)]:
+            if hmap is None:
+                a2 = a_rand
+            else:
+                a2 = a.copy()
+                a2["p_id"] = a2["p_id"].map(pmap)
+                a2["hh_id"] = a2["hh_id"].map(hmap)
+                for c in popgen.POINTERS:
+                    a2[c] = a2[c].map(lambda v: pmap[v] if v >= 0 else v)
+                a2 = a2.astype({c: "int64" for c in ["p_id", "hh_id", *popgen.POINTERS]})
+            ok, r2 = run.attempt(f"simulate({label} relabelling of a competing family) at {date}", popgen.simulate_all, a2, date,
+                                 replay={"date": date, "data": popgen.frame_to_json(a2)})
+            if not ok:
+                continue
+            k1 = base.copy()
+            k1.index = k1.index.map(pmap)
+            k1 = k1.sort_index()
+            k2 = meta.by_pid(r2, a2)
+            run.case({"date": date, "competing": common.digest(popgen.frame_to_json(a)), "relabel": label})
+            for col, why in meta.diff_columns(k1, k2, check_dtype=True, pid_map=pmap,
+                                              cols=[c for c in k1.columns if c != "hh_id"]):
+                run.hit({"node": col, "kind": "relabelling-changes-values"},
+                        f"{col} at {date} changes under a {label} relabelling of p_id / hh_id (rows in the same order; a family in "
+                        f"which several persons compete for one family unit): {why}",
+                        {"date": date, "data": popgen.frame_to_json(a), "relabelled": popgen.frame_to_json(a2),
+                         "node": col, "detail": why})
+
+
 def run(tier: str) -> int:
     r = common.Run("C02", tier)
     quick = tier == "quick"
@@ -101,11 +150,12 @@ def run(tier: str) -> int:
               "relabelling of p_id/hh_id (sparse, up to 20x) applied consistently to the pointer columns; values 2^-40, "
               "dtypes exactly, id columns as partitions; one scale case per date (B with several hundred persons and more "
               "than 100 self-supporting children, ids below and above A's). distinct = (A, B, arrangement).")
-    common.build_and_audit(r, ["C02", "C12Cor"], leanchecker=not quick)
+    common.build_and_audit(r, ["C02", "C02Sim", "C12Cor"], leanchecker=not quick)
     rnd = common.rng("C02")
     for date in (popgen.DATES_QUICK if quick else popgen.DATES_2015):
         if quick or date in popgen.DATES_QUICK:
             scale_case(r, rnd, date, 110 if quick else 160)
+        relabel_beyond_valid(r, rnd, date, 4 if quick else 25)
         for k in range(4 if quick else 20):
             a, b = two_populations(rnd, date)
             ok, ra = r.attempt(f"simulate(A) at {date}", popgen.simulate_all, a, date,
